@@ -161,7 +161,8 @@ ADDED = {
  "C16": " Also: 21 kinds of non-array objects (Python and NumPy scalars, memoryview, range, ...) as each single boundary coefficient and as all three; such a face must never end "
         "up in a solved problem; unknown terms at every position of four list contexts (with a genuine pair, with a transient term, alone); every per-axis mixture "
         "of N and N+2 as initial-array shape.",
- "C17": " Also six extreme unit systems (lengths down to 2^-40, values down to 2^-70, everything x 2^50) for the term sets without the TVD correction.",
+ "C17": " Term by term: every grid instance of the linearity bound in length units 2^-7 / 2^3 with D x L^2 and u x L gives bit-identical diffusion / central / upwind "
+        "matrices, TVD vectors (3 limiters, all combinations of one flow direction per axis) and divergence, and a gradient scaled by 1/L. Also six extreme unit systems (lengths down to 2^-40, values down to 2^-70, everything x 2^50) for the term sets without the TVD correction.",
  "C02": " Graded ladders are not end-symmetric (first cell wider than the last one, interior ratios vary).",
 }
 
